@@ -157,6 +157,10 @@ def gen_batch(seed):
         opts += ["--junit", "out/j.xml"]
     if rng.random() < 0.12:
         opts += ["--quality_report", "out/q.json"]  # written, not compared (running counter by design)
+    if rng.random() < 0.08:
+        opts.append("--debug")  # diagnostics printed straight from whoever processes the file
+    if fix and rng.random() < 0.1:
+        opts.append("--force_fix")
     cfg, stop = gen_config(rng, names)
     if stop is not None and want_junit:
         # configuration error + --junit ends in an unhandled exception on the pinned tree for the
@@ -496,7 +500,29 @@ def evaluate(desc, res, env, alt=True):
     # ---- streams
     want = merge_tagged([p for n in reported for p in solos[n]["tagged"]])
     got = merge_tagged(runner.stream_of(res)[1])
-    if got != want:
+    if got != want and ("--debug" in desc["argv"] or "--force_fix" in desc["argv"]):
+        # --debug lines ("INFO: ...") are printed by whoever analyses the file at the moment it does
+        # so - with several jobs they legitimately land between other files' reports.  What must
+        # hold: the same lines overall, and everything that is not a debug line in command-line order.
+        gs = {t: "".join(x[1] for x in got if x[0] == t) for t in "oe"}
+        ws = {t: "".join(x[1] for x in want if x[0] == t) for t in "oe"}
+        gl, wl = gs["o"].split("\n"), ws["o"].split("\n")
+        if stop_name is not None:
+            # workers that ran ahead of a batch-stopping configuration error have printed their
+            # diagnostics already; their files are legitimately unreported (scoping decision b)
+            gl = [x for x in gl if not x.startswith("INFO:")]
+            wl = [x for x in wl if not x.startswith("INFO:")]
+        if sorted(gl) != sorted(wl):
+            extra = sorted(set(gl) - set(wl))[:3]
+            missing = sorted(set(wl) - set(gl))[:3]
+            add("stdout-mismatch", None, {"debug_lines": True, "unexpected": [x[:160] for x in extra], "missing": [x[:160] for x in missing], "len_got": len(gs["o"]), "len_want": len(ws["o"])})
+        elif "--force_fix" not in desc["argv"] and [x for x in gl if not x.startswith("INFO:")] != [x for x in wl if not x.startswith("INFO:")]:
+            # (--force_fix prints the parse error and a banner straight from the worker too, not only
+            # INFO lines: with it only the multiset of lines is compared)
+            add("stdout-mismatch", None, {"debug_lines": True, "note": "report lines out of command-line order"})
+        if gs["e"] != ws["e"]:
+            add("stderr-mismatch", None, _diff(gs["e"], ws["e"]))
+    elif got != want:
         o = {"got": got[:6], "want": want[:6]}
         gs = {t: "".join(x[1] for x in got if x[0] == t) for t in "oe"}
         ws = {t: "".join(x[1] for x in want if x[0] == t) for t in "oe"}
